@@ -2604,3 +2604,184 @@ class CsvFamily(Family):
     def bounded_source(cls, prog, fname):
         return 'csv', cls.source(), ('all tables of up to 2x2 fields over a 14-string pool (empty, blanks, non-Latin, separators, quotes, doubled quotes, line breaks) x 4 separator/quote '
                                      'configurations x 4 line endings, written raw-when-possible and always-quoted, read back with decoding on')
+
+
+TREE_TEST = r'''package test_calculator
+
+import (
+	"fmt"
+	"math/rand"
+	"os"
+	"strconv"
+	"strings"
+	"testing"
+
+	"github.com/pip-services3-gox/pip-services3-expressions-gox/calculator"
+	"github.com/pip-services3-gox/pip-services3-expressions-gox/calculator/functions"
+	"github.com/pip-services3-gox/pip-services3-expressions-gox/calculator/variables"
+	"github.com/pip-services3-gox/pip-services3-expressions-gox/variants"
+)
+
+// C01 (bounded): syntax trees generated from the statement's precedence table - every ordered pair of binary operators
+// in both tree shapes over the operands a, b, c, every unary/postfix operator over every binary one, calls and indexing,
+// plus pseudo-random trees up to depth 4 - are printed with minimal and with full parenthesisation, with varying
+// spacing, comments and keyword case, compiled and evaluated by the calculator, and compared with the direct
+// evaluation of the tree (each node applies its variant operation to its operands in written order), under five
+// variable assignments and both operation managers.
+type tnode struct { op string; kids []*tnode; leaf string }
+
+var level = map[string]int{"AND": 0, "OR": 0, "XOR": 0, "NOT": 1, "=": 2, "<>": 2, "!=": 2, ">": 2, "<": 2, ">=": 2, "<=": 2,
+	"+": 3, "-": 3, "ISNULL": 3, "ISNOTNULL": 3, "NOTIN": 3, "*": 4, "/": 4, "%": 4, "^": 5, "IN": 5, "<<": 5, ">>": 5, "NEG": 6, "IDX": 6, "CALL": 6}
+
+func lvl(n *tnode) int { if n.leaf != "" { return 7 }; if strings.HasPrefix(n.op, "CALL:") { return 6 }; return level[n.op] }
+
+var kwcase = 0
+
+func kw(s string) string {
+	kwcase++
+	switch kwcase % 3 { case 0: return strings.ToLower(s); case 1: return s }
+	return strings.ToUpper(s[:1]) + strings.ToLower(s[1:])
+}
+
+func show(n *tnode, full bool, sp func() string) string {
+	wrap := func(c *tnode, need bool) string { s := show(c, full, sp); if (need || full) && c.leaf == "" { return "(" + sp() + s + sp() + ")" }; return s }
+	if n.leaf != "" { return n.leaf }
+	me := lvl(n)
+	switch {
+	case n.op == "NOT": return kw("NOT") + " " + sp() + wrap(n.kids[0], lvl(n.kids[0]) < 2)
+	case n.op == "NEG": return "-" + sp() + wrap(n.kids[0], lvl(n.kids[0]) < 7 && !strings.HasPrefix(n.kids[0].op, "CALL:"))
+	case n.op == "ISNULL": return wrap(n.kids[0], lvl(n.kids[0]) < me) + " " + sp() + kw("IS") + " " + sp() + kw("NULL")
+	case n.op == "ISNOTNULL": return wrap(n.kids[0], lvl(n.kids[0]) < me) + " " + kw("IS") + " " + sp() + kw("NOT") + " " + kw("NULL")
+	case n.op == "IDX": return wrap(n.kids[0], n.kids[0].leaf == "" && !strings.HasPrefix(n.kids[0].op, "CALL:")) + sp() + "[" + sp() + show(n.kids[1], full, sp) + sp() + "]"
+	case strings.HasPrefix(n.op, "CALL:"):
+		var as []string
+		for _, k := range n.kids { as = append(as, show(k, full, sp)) }
+		return n.op[5:] + sp() + "(" + sp() + strings.Join(as, sp()+","+sp()) + sp() + ")"
+	}
+	opText := n.op
+	switch n.op { case "AND", "OR", "XOR", "IN": opText = kw(n.op); case "NOTIN": opText = kw("NOT") + " " + kw("IN") }
+	return wrap(n.kids[0], lvl(n.kids[0]) < me) + " " + sp() + opText + " " + sp() + wrap(n.kids[1], lvl(n.kids[1]) <= me)
+}
+
+func direct(n *tnode, vars map[string]*variants.Variant, ops variants.IVariantOperations, fns functions.IFunctionCollection) (r *variants.Variant, err error) {
+	defer func() { if p := recover(); p != nil { r, err = nil, fmt.Errorf("panic: %v", p) } }()
+	if n.leaf != "" {
+		if v, ok := vars[strings.ToLower(n.leaf)]; ok { return v, nil }
+		if n.leaf == "TRUE" { return variants.VariantFromBoolean(true), nil }
+		if strings.HasPrefix(n.leaf, "'") { return variants.VariantFromString(strings.Trim(n.leaf, "'")), nil }
+		if strings.Contains(n.leaf, ".") { f, _ := strconv.ParseFloat(n.leaf, 32); return variants.VariantFromFloat(float32(f)), nil }
+		i, _ := strconv.Atoi(n.leaf)
+		return variants.VariantFromInteger(i), nil
+	}
+	var vs []*variants.Variant
+	for _, k := range n.kids {
+		v, e := direct(k, vars, ops, fns)
+		if e != nil { return nil, e }
+		vs = append(vs, v)
+	}
+	switch n.op {
+	case "AND": return ops.And(vs[0], vs[1]); case "OR": return ops.Or(vs[0], vs[1]); case "XOR": return ops.Xor(vs[0], vs[1])
+	case "NOT": return ops.Not(vs[0]); case "NEG": return ops.Negative(vs[0])
+	case "=": return ops.Equal(vs[0], vs[1]); case "<>", "!=": return ops.NotEqual(vs[0], vs[1])
+	case ">": return ops.More(vs[0], vs[1]); case "<": return ops.Less(vs[0], vs[1]); case ">=": return ops.MoreEqual(vs[0], vs[1]); case "<=": return ops.LessEqual(vs[0], vs[1])
+	case "+": return ops.Add(vs[0], vs[1]); case "-": return ops.Sub(vs[0], vs[1]); case "*": return ops.Mul(vs[0], vs[1]); case "/": return ops.Div(vs[0], vs[1]); case "%": return ops.Mod(vs[0], vs[1])
+	case "^": return ops.Pow(vs[0], vs[1]); case "<<": return ops.Lsh(vs[0], vs[1]); case ">>": return ops.Rsh(vs[0], vs[1])
+	case "IN": return ops.In(vs[1], vs[0])
+	case "NOTIN": r, e := ops.In(vs[1], vs[0]); if e != nil { return nil, e }; return ops.Not(r)
+	case "ISNULL": return variants.VariantFromBoolean(vs[0].IsNull()), nil
+	case "ISNOTNULL": return variants.VariantFromBoolean(!vs[0].IsNull()), nil
+	case "IDX": return ops.GetElement(vs[0], vs[1])
+	}
+	f := fns.FindByName(n.op[5:])
+	if f == nil { return nil, fmt.Errorf("no function") }
+	return f.Calculate(vs, ops)
+}
+
+func outcome(v *variants.Variant, err error) string {
+	if err != nil { return "error" }
+	if v == nil { return "nil" }
+	return fmt.Sprintf("%d:%s", v.Type(), v.String())
+}
+
+func TestVerifReplay(t *testing.T) {
+	seed := int64(1)
+	if s, e := strconv.ParseInt(os.Getenv("VERIF_SEED"), 10, 64); e == nil && s != 0 { seed = s }
+	rng := rand.New(rand.NewSource(seed))
+	L := func(s string) *tnode { return &tnode{leaf: s} }
+	B := func(op string, a, b *tnode) *tnode { return &tnode{op: op, kids: []*tnode{a, b}} }
+	U := func(op string, a *tnode) *tnode { return &tnode{op: op, kids: []*tnode{a}} }
+	bin := []string{"AND", "OR", "XOR", "=", "<>", "!=", ">", "<", ">=", "<=", "+", "-", "NOTIN", "*", "/", "%", "^", "IN", "<<", ">>"}
+	un := []string{"NOT", "NEG", "ISNULL", "ISNOTNULL"}
+	var trees []*tnode
+	for _, o1 := range bin { for _, o2 := range bin {
+		trees = append(trees, B(o2, B(o1, L("a"), L("b")), L("c")), B(o1, L("a"), B(o2, L("b"), L("c"))))
+	} }
+	for _, u := range un { for _, o := range bin {
+		trees = append(trees, U(u, B(o, L("a"), L("b"))), B(o, U(u, L("a")), L("b")), B(o, L("a"), U(u, L("b"))))
+	} }
+	for _, o := range bin {
+		trees = append(trees, B(o, &tnode{op: "CALL:Max", kids: []*tnode{L("a"), L("2")}}, L("b")), &tnode{op: "CALL:Sum", kids: []*tnode{B(o, L("a"), L("b")), L("c"), L("1")}},
+			&tnode{op: "IDX", kids: []*tnode{L("d"), B(o, L("a"), L("b"))}}, B(o, &tnode{op: "IDX", kids: []*tnode{L("d"), L("1")}}, L("a")),
+			&tnode{op: "CALL:If", kids: []*tnode{B(o, L("a"), L("b")), L("'y'"), &tnode{op: "CALL:Max", kids: []*tnode{L("c"), L("a"), L("b")}}}})
+	}
+	leaves := []string{"a", "b", "c", "d", "1", "2", "0", "2.5", "'s'", "TRUE"}
+	var gen func(depth int) *tnode
+	gen = func(depth int) *tnode {
+		if depth == 0 || rng.Intn(4) == 0 { return L(leaves[rng.Intn(len(leaves))]) }
+		switch rng.Intn(8) {
+		case 0: return U(un[rng.Intn(len(un))], gen(depth-1))
+		case 1: return &tnode{op: "CALL:Max", kids: []*tnode{gen(depth - 1), gen(depth - 1)}}
+		case 2: return &tnode{op: "IDX", kids: []*tnode{gen(depth - 1), gen(depth - 1)}}
+		}
+		return B(bin[rng.Intn(len(bin))], gen(depth-1), gen(depth-1))
+	}
+	for i := 0; i < @N@; i++ { trees = append(trees, gen(4)) }
+	arr := variants.VariantFromArray([]*variants.Variant{variants.VariantFromInteger(1), variants.VariantFromInteger(3), variants.VariantFromString("s")})
+	assignments := []map[string]*variants.Variant{
+		{"a": variants.VariantFromInteger(6), "b": variants.VariantFromInteger(3), "c": variants.VariantFromInteger(2), "d": arr},
+		{"a": variants.VariantFromBoolean(true), "b": variants.VariantFromBoolean(false), "c": variants.VariantFromBoolean(true), "d": arr},
+		{"a": variants.VariantFromDouble(2.5), "b": variants.VariantFromLong(-4), "c": variants.VariantFromInteger(0), "d": variants.VariantFromString("xyz")},
+		{"a": variants.VariantFromString("3"), "b": variants.EmptyVariant(), "c": variants.VariantFromFloat(1.5), "d": arr},
+		{"a": variants.VariantFromInteger(1), "b": arr, "c": variants.VariantFromInteger(3), "d": arr},
+	}
+	managers := []variants.IVariantOperations{variants.NewTypeUnsafeVariantOperations(), variants.NewTypeSafeVariantOperations()}
+	fns := functions.NewDefaultFunctionCollection()
+	spaces := []func() string{func() string { return "" }, func() string { return []string{"", " ", "  ", "\t", " /* c */ ", "\n"}[rng.Intn(6)] }}
+	bad := 0
+	for _, tr := range trees {
+		for vi, full := range []bool{false, true} {
+			text := show(tr, full, spaces[vi])
+			c := calculator.NewExpressionCalculator()
+			c.SetAutoVariables(false)
+			if err := c.SetExpression(text); err != nil { t.Errorf("%q (printed from a tree) is rejected: %v", text, err); bad++; continue }
+			for ai, asg := range assignments {
+				for mi, ops := range managers {
+					c.SetVariantOperations(ops)
+					vc := variables.NewVariableCollection()
+					for k, v := range asg { vc.Add(variables.NewVariable(k, v)) }
+					want := outcome(direct(tr, asg, ops, fns))
+					var got string
+					func() { defer func() { if p := recover(); p != nil { got = fmt.Sprintf("panic: %v", p) } }(); got = outcome(c.EvaluateUsingVariables(vc)) }()
+					if got != want { t.Errorf("%q under assignment %d, manager %d evaluates to %s; its syntax tree evaluates to %s", text, ai, mi, got, want); bad++ }
+				}
+			}
+			if bad > 8 { t.Fatalf("stopping after %d failures", bad) }
+		}
+	}
+}
+'''
+
+
+class TreeFamily(Family):
+    @classmethod
+    def source(cls, n=300):
+        return TREE_TEST.replace('@N@', str(n))
+
+    def test_source(self, vals):
+        return 'test/calculator', self.source()
+
+    @classmethod
+    def bounded_source(cls, prog, fname):
+        return 'test/calculator', cls.source(), ('every ordered pair of the 20 binary operators in both tree shapes, every unary/postfix operator over and under every binary one, calls and '
+                                                 'indexing against every binary operator, 300 pseudo-random trees up to depth 4 (VERIF_SEED); each printed minimally and fully '
+                                                 'parenthesised with varying spacing, comments and keyword case; 5 variable assignments x 2 managers; calculator vs direct tree evaluation')
